@@ -1760,6 +1760,17 @@ func c19FloatCorpus() []c19CorpusEntry {
 		{e: c19Bin("=", c19Bin("=", n("2"), a), n("1"))},
 		{e: c19Bin("=", c19Bin("=", a, n("2")), n("1"))},
 		{e: c19Bin("=", c19Bin("=", n("0"), a), n("0"))},
+		// pinned source texts: the reading under the priorities example/minimal.go declares (= < > + - * / ^ ascending)
+		{e: c19Bin("+", a, c19Bin("*", b, n("2"))), src: "a + b * 2"},
+		{e: c19Bin("+", c19Bin("*", a, b), n("2")), src: "a * b + 2"},
+		{e: c19Bin("<", a, c19Bin("+", b, n("1"))), src: "a < b + 1"},
+		{e: c19Bin("=", c19Bin("<", a, b), n("1")), src: "a < b = 1"},
+		{e: c19Bin("-", c19Bin("-", a, b), n("2")), src: "a - b - 2"},
+		{e: c19Bin("-", a, c19Bin("/", b, n("2"))), src: "a - b / 2"},
+		{e: c19Bin("/", c19Bin("*", a, b), n("2")), src: "a * b / 2"},
+		{e: c19Un("-", c19Bin("*", a, b)), src: "-a * b"},
+		{e: c19Bin("+", c19Un("-", a), b), src: "-a + b"},
+		{e: c19Bin("*", n("2"), c19Bin("^", a, n("2"))), src: "2 * a ^ 2"},
 		// regrouping of + and * with constants on either side
 		{e: c19Bin("+", c19Bin("+", n("2"), a), n("2"))},
 		{e: c19Bin("+", c19Bin("+", a, n("2")), n("2"))},
@@ -1806,6 +1817,16 @@ func c19BoolCorpus() []c19CorpusEntry {
 	a, b, c := c19Name("a"), c19Name("b"), c19Name("c")
 	t, f := c19Name("true"), c19Name("false")
 	return []c19CorpusEntry{
+		// pinned source texts: the reading under the priorities example/bool.go declares (^ lowest, then =, |, & highest)
+		{e: c19Bin("|", a, c19Bin("&", b, c)), src: "a | b & c"},
+		{e: c19Bin("|", c19Bin("&", a, b), c), src: "a & b | c"},
+		{e: c19Bin("^", a, c19Bin("=", b, c)), src: "a ^ b = c"},
+		{e: c19Bin("^", c19Bin("=", a, b), c), src: "a = b ^ c"},
+		{e: c19Bin("=", a, c19Bin("|", b, c)), src: "a = b | c"},
+		{e: c19Bin("=", c19Bin("|", a, b), c), src: "a | b = c"},
+		{e: c19Bin("^", c19Bin("^", a, b), c), src: "a ^ b ^ c"},
+		{e: c19Bin("&", c19Un("!", a), b), src: "!a & b"},
+		{e: c19Bin("|", c19Un("!", c19Bin("&", a, b)), c), src: "!(a & b) | c"},
 		// the six expressions of example/bool_test.go
 		{e: c19Bin("&", a, b)}, {e: c19Bin("|", a, b)}, {e: c19Bin("^", a, b)}, {e: c19Bin("=", a, b)},
 		{e: c19Un("!", a)}, {e: c19Bin("|", c19Bin("&", a, b), c)},
